@@ -736,7 +736,7 @@ class SharesManager(BaseManager):
 
             # Excluded search phrases
             for excl_phrase in excl_phrases:
-                if excl_phrase in found_item.get_query_path().lower():
+                if excl_phrase.lower() in found_item.get_query_path().lower():
                     logger.debug(
                         "removing search result %r due to excluded phrase %r",
                         found_item.get_absolute_path(), excl_phrase
